@@ -2,6 +2,7 @@
 from __future__ import annotations
 
 from .core import outcome, octs
+from .probe import decode_other
 
 
 def mk_hdr(h):
@@ -40,6 +41,7 @@ def op_hdr_rt(a):
         o = mk_hdr(h)
         raw = o.pack()
         d = _hdr_cls(h["trunc"]).unpack(bytes(raw) + bytes(a["sfx"]))
+        decode_other(f"uslp.hdr:{int(bool(h['trunc']))}", _hdr_cls(h["trunc"]).unpack)
         return {"octets": octs(raw), "len": o.len(), "dec": proj_hdr(d), "dlen": d.len(), "repack": octs(d.pack()),
                 "htype": int(determine_header_type(bytes(raw)) == HeaderType.TRUNCATED)}
     return outcome(run)
